@@ -211,7 +211,8 @@ class Interp:
             self.new_alts.append(list(self.trail) + [False])
         else:
             t_ok = self.feasible(cond)
-            f_ok = self.feasible(z3.Not(cond))
+            # the path so far is feasible (invariant of the exploration), so if cond cannot hold its negation can
+            f_ok = self.feasible(z3.Not(cond)) if t_ok else True
             if t_ok and f_ok:
                 taken = True
                 self.new_alts.append(list(self.trail) + [False])
